@@ -1,4 +1,5 @@
 import DM.Model.Symbol
+import DM.Model.Basic
 /-
 Model of `placement.rs`: `IndexTraversal::{run, idx, utah, corner1..4}`, and on top of it
 `MatrixMap::<bool>::{new, copy_from_codewords, write_padding, codewords}`.
@@ -88,10 +89,13 @@ def layoutOf (s : Sym) : List (List Nat) := pLayout (contentHeight s) (contentWi
 /-- bits of a codeword, most significant first (what `copy_from_codewords` stores in `bits[0..8]`) -/
 def bitsMsb (c : Nat) : List Bool := (List.range 8).map fun k => c.testBit (7 - k)
 
+/-- the stores of `copy_from_codewords`, in code order: codeword by codeword, bit by bit -/
+def assigns (layout : List (List Nat)) (data : List Nat) : List (Nat × Bool) :=
+  (layout.zip data).flatMap fun p => p.1.zip (bitsMsb p.2)
+
 /-- `copy_from_codewords` without the padding -/
 def writeCodewords (entries : List Bool) (layout : List (List Nat)) (data : List Nat) : List Bool :=
-  (layout.zip data).foldl
-    (fun e (p : List Nat × Nat) => (p.1.zip (bitsMsb p.2)).foldl (fun e q => e.set q.1 q.2) e) entries
+  setAll entries (assigns layout data)
 
 /-- `write_padding` -/
 def writePadding (entries : List Bool) (h w : Nat) (padding : Bool) : List Bool :=
